@@ -110,6 +110,28 @@ CHECKS = {
 NOT_YET = {
 }
 
+# thorough tier: coverage-guided libFuzzer campaigns over the same strategies and checks (DESIGN.md §8.8)
+SECFUZZ = {
+ "C01": "history", "C03": "payment, sequence", "C04": "address", "C05": "quorum", "C06": "schedules",
+ "C07": "updates, same_key_other_kind", "C08": "history", "C09": "cluster, forced_fetch", "C10": "capacity",
+ "C11": "fetch_order, sort", "C12": "record_roundtrip, message_roundtrip", "C13": "quote_mutations, proof_truth_table, historical_verify",
+ "C16": "parse, arith, display", "C18": "history, corrupt", "C19": "sequences",
+}
+EXTRA_TECH = {
+ "C01": "; write faults also on held, acknowledged keys with a 'held (listed and readable) or gone' oracle for every settled key",
+ "C05": "; callers with a retry strategy on a paused clock (each attempt answered by a generated reply list and terminator, quorum counted leniently over all attempts)",
+ "C06": "; every reached state must be mergeable into a replica that holds nothing",
+ "C10": "; records of the size limit or more at any fill level (a refusal leaves the held set unchanged)",
+ "C11": "; whose replication lists a node acts on (sender of a generated closeness rank among 22-70 routing-table peers)",
+ "C20": "; service environments carrying the EVM variables the node itself reads",
+}
+for _pid in list(CHECKS):
+    eng, cat, tech, text, note, ref = CHECKS[_pid]
+    tech += EXTRA_TECH.get(_pid, "")
+    if _pid in SECFUZZ:
+        tech += f"; thorough tier adds coverage-guided libFuzzer campaigns over the same proptest strategy and check of section(s) {SECFUZZ[_pid]} (input bytes = the strategy's random stream via proptest's PassThrough RNG; failing inputs are decoded, shrunk with the strategy's value tree and written as ordinary replay files)"
+    CHECKS[_pid] = (eng, cat, tech, text, note, ref)
+
 def main():
     props = [json.loads(l) for l in open(os.path.join(ROOT, "properties.jsonl"))]
     checks, na = [], []
